@@ -78,3 +78,32 @@ ghost("HoursWf", ["h"],
       "forall(d, implies(d in h, 0 <= d and d <= 6 and len(h[d]) <= 1000000 and forall(k, 0, len(h[d]), "
       "0 <= h[d][k][0][0] and h[d][k][0][0] <= 24 and 0 <= h[d][k][0][1] and h[d][k][0][1] <= 59 and "
       "0 <= h[d][k][1][0] and h[d][k][1][0] <= 24 and 0 <= h[d][k][1][1] and h[d][k][1][1] <= 59)))")
+
+# ---- resources, tasks, scenario data ------------------------------------------------------------------------------
+TaskUsage = List(Tuple(Ref("Task"), Real), ghost_sum=[1])
+fields_of("ResourceScenario", property=Ref("Resource"), project=Ref("Project"), scenarioIdx=Int,
+          scoreboard=Opt(Ref("Scoreboard")), slotSecondsUsed=Dict(Int, Real), slotTaskUsage=Dict(Int, TaskUsage),
+          _effort=Real, firstBookedSlot=Opt(Int), lastBookedSlot=Opt(Int),
+          firstBookedSlots=Dict(Ref("Task"), Int), lastBookedSlots=Dict(Ref("Task"), Int))
+fields_of("Resource", parent=Opt(Ref("Resource")), data=Opt(List(Opt(Ref("ResourceScenario")))), id=Str,
+          project=Ref("Project"))
+fields_of("Task", parent=Opt(Ref("Task")), data=Opt(List(Opt(Ref("TaskScenario")))), id=Str, project=Ref("Project"))
+fields_of("Shift", parent=Opt(Ref("Shift")))
+fields_of("Limits", _limits=List(Ref("Limit")), project=Opt(Ref("Project")))
+
+attrs(limits=Opt(Ref("Limits")), efficiency=Opt(Real), duties=Opt(List(Ref("Task"))), leaves=Opt(List(Ref("Leave"))),
+      timezone=Opt(Str), shifts=Opt(Ref("Shift")), workinghours=Opt(Ref("WorkingHours")), rate=Opt(Real))
+klass("Resource", attrget=True, has=("data",))
+klass("Task", attrget=True, has=("data",))
+klass("Shift", attrget=True)
+klass("Limits", truthy="len(self._limits) > 0", has=("ok", "inc"))
+klass("WorkingHours", has=("onShift",))
+klass("TaskScenario", has=("incLimits", "slotStartOffset", "_lastBookedResource", "_selectedResources", "doneEffort",
+                           "doneDuration", "doneLength"))
+
+# ledger view of a ResourceScenario
+ghost("D", ["rs"], "rs.project.attributes['scheduleGranularity']")
+ghost("used", ["rs", "s"], "rs.slotSecondsUsed.get(s, 0.0)")
+ghost("usage", ["rs", "s"], "ite(s in rs.slotTaskUsage, seqsum(rs.slotTaskUsage[s], 1), 0.0)")
+ghost("LedgerAt", ["rs", "s"], "0 <= usage(rs, s) and usage(rs, s) <= used(rs, s) and used(rs, s) <= D(rs)")
+ghost("Ledger", ["rs"], "forall(s, LedgerAt(rs, s))")
